@@ -113,6 +113,11 @@ def tlc(module, cfg=None, *, name, workers=4, env=None, simulate=None, depth=Non
         (["<temporal>"] if "Temporal properties were violated" in out else [])
     res["ok"] = ("No error has been found" in out) or (simulate and "Error:" not in out and r.returncode in (0,))
     res["prints"] = parse_prints(out)
+    # behaviours printed by several workers arrive in scheduling order: canonical order, so that
+    # seeded sampling from them is reproducible
+    for tag in ("REPLAY", "GRAPH", "PROG"):
+        if tag in res["prints"]:
+            res["prints"][tag].sort(key=lambda x: json.dumps(x, sort_keys=True))
     if r.returncode == 124:
         raise ToolError(f"TLC timed out on {module} after {timeout}s")
     if not res["ok"] and not res["violated"] and not allow_violation:
